@@ -10,6 +10,10 @@ def fpowi (x : Float) : Nat → Float
   | 0 => 1.0
   | 1 => x
   | n + 1 => fpowi x n * x
+/-- `math.ceil(x)` / `math.floor(x)` / `int(x)` of a finite double as a machine integer -/
+def fceil (x : Float) : Int := x.ceil.toInt64.toInt
+def ffloor (x : Float) : Int := x.floor.toInt64.toInt
+def ftrunc (x : Float) : Int := if x < 0 then x.ceil.toInt64.toInt else x.floor.toInt64.toInt
 /-- `torch.sum(v, dim=-1)` left to right -/
 def fsum (v : List Float) : Float := v.foldl (· + ·) 0.0
 
@@ -51,6 +55,8 @@ def hexDigit (n : Nat) : Char := if n < 10 then Char.ofNat (n + '0'.toNat) else 
 def sReal (x : Float) : String :=
   let n := x.toBits.toNat
   String.ofList ((List.range 16).map fun i => hexDigit ((n / 16 ^ (15 - i)) % 16))
+def pInt (s : String) : Option Int := s.toInt?
+def sInt (i : Int) : String := toString i
 def sBool (b : Bool) : String := if b then "T" else "F"
 def sVec (v : List Float) : String := if v.isEmpty then "-" else ",".intercalate (v.map sReal)
 
